@@ -32,7 +32,9 @@ Proof. exact sl_get_kmer_spec. Qed.
 Theorem C13_bytes_get_kmer : forall c, In c shipped -> forall (l : dna) pos, wf_dna l -> (pos + kK c <= length l)%nat ->
   exists r, bytes_get_kmer c l pos = Some r /\ wf (kK c) r /\ decode (kK c) r = kmer_at (kK c) l pos.
 Proof. exact bytes_get_kmer_spec. Qed.
-(* fewer than K bases from pos on: the assert / slice index panics *)
+(* fewer than K bases from pos on: the assert / slice index panics.  [None] follows the convention of DESIGN 3.1 (a debug
+   build): for pos <= len < pos+K the assert fails in every build; for pos > len a release build wraps len - pos, so the
+   assert does not stop it - such calls are outside the property's domain and nothing is claimed about them *)
 Theorem C13_dnastring_get_kmer_short : forall c s pos, (d_len s < pos + kK c)%nat -> d_get_kmer c s pos = None.
 Proof. exact d_get_kmer_short. Qed.
 Theorem C13_lmer_get_kmer_short : forall c x len pos, l_len x = Some len -> (len < pos + kK c)%nat -> l_get_kmer c x pos = None.
